@@ -258,7 +258,7 @@ class Schema:
 class Gen:
     def __init__(self, rng, **knobs):
         self.rng = rng
-        self.k = dict(renamed_enum=False, renamed_select=False, named_aggr_of_enumsel=False, named_multidim=False,
+        self.k = dict(renamed_enum=True, renamed_select=True, named_aggr_of_enumsel=True, named_multidim=True, rename_chains=True,
                       keywordish=True, mixed_case=True, n_entities=(3, 9), n_types=(3, 9))
         self.k.update(knobs)
         self.used = set()
@@ -362,6 +362,26 @@ class Gen:
                 s.types.append(dict(name=n, body=("alias", ("N", r.choice(selects))))); selects.append(n); s.tags.add("renamed_select")
             else:
                 self.used.discard(n)
+        # ---- rename chains of length 1..3 over every underlying kind (TYPE n1 = root; TYPE n2 = n1; TYPE n3 = n2;):
+        #      the descriptor of each link must refer to the type it is declared with, not to the end of the chain
+        if K["rename_chains"]:
+            for kind_name, pool in (("simple", simple_named), ("enum", enums), ("select", selects), ("aggregate", aggr_named)):
+                if not pool or r.random() < 0.35:
+                    continue
+                if kind_name == "enum" and not K["renamed_enum"] or kind_name == "select" and not K["renamed_select"]:
+                    continue
+                prev = r.choice(pool)
+                length = r.randint(1, 3)
+                for _ in range(length):
+                    n = self.ident(kw if r.random() < 0.2 else None)
+                    s.types.append(dict(name=n, body=("alias", ("N", prev))))
+                    pool.append(n)
+                    prev = n
+                s.tags.add(f"rename_chain_{kind_name}_{length}")
+                if kind_name == "enum":
+                    s.tags.add("renamed_enum")
+                if kind_name == "select":
+                    s.tags.add("renamed_select")
         r.shuffle(s.types)
         # ---- entities: a DAG (supertypes among earlier entities), then shuffled textually
         def attr_type():
